@@ -26,7 +26,7 @@ RULE = (
     "GetValue(own unit) returns the stored value for simple, derived and empty quantities. Second configuration: "
     "after the shipped table, a small project database that reuses its symbols with other factors is used in the "
     "same process and all its pairs x categories go through all routes (nothing may be remembered per symbol "
-    "across databases). Targets that have a legacy spelling are also asked for in that spelling (GetValue, CreateCopy, ChangeScalars, Array / FixedArray routes, db.Convert): same numbers, category and type of the source kept; FixedArray.ChangingIndex also with a (value, unit) pair and use_value_unit=False. Non-trivial = u!=v, "
+    "across databases). Targets that have a legacy spelling are also asked for in that spelling (GetValue, CreateCopy, ChangeScalars, Array / FixedArray routes, db.Convert): same numbers, category and type of the source kept; FixedArray.ChangingIndex also with a (value, unit) pair and use_value_unit=False. Quantities and objects obtained while a project database was current are used after the shipped one is current again (flat and nested containers, objects built on the quantity, copies with new values): the quantity's own database converts. Non-trivial = u!=v, "
     "conversion not identity, x!=0, container non-empty; distinct key = (route, qt, u, v, category)."
 )
 ASSUMPTIONS = [
@@ -676,6 +676,7 @@ def run_shard(spec, ctx):
     # a second, different database used later in the same process (all pairs, all categories, all routes)
     if spec["part"] < 2:
         variant_sweep(ctx, [1.0, -2.5, 1e3 + spec["seed"]], [3, -7])
+        check_objects_of_another_database(ctx)
         ctx.exhaustive["second database sharing symbols with the shipped one (all pairs)"] = "all"
 
 
@@ -703,6 +704,48 @@ def variant_db():
     return db
 
 
+def check_objects_of_another_database(ctx):
+    """Quantities and objects obtained while a project database was current are used after the shipped one became
+    current again: every route still converts with the factors of the database the quantity belongs to - flat and
+    nested containers, objects built on the quantity, copies with new values."""
+    import numpy
+
+    from barril.units import Array, FixedArray, ObtainQuantity, Scalar
+
+    vdb = variant_db()
+    with env.pushed(vdb):
+        q = ObtainQuantity("cm", "length")
+        src = Array([1.0, 2.0], "cm", "length")
+        sc = Scalar(2.0, "cm", "length")
+    vals = [1.0, 2.5, -4.0, 8.0]
+    want = {x: vdb.Convert("length", "cm", "m", x) for x in vals}
+    pairs = ((vals[0], vals[1]), (vals[2], vals[3]))
+    routes = [
+        ("Scalar.CreateWithQuantity(q).GetValue", lambda: [Scalar.CreateWithQuantity(q, x).GetValue("m") for x in vals]),
+        ("Array(q, list).GetValues", lambda: list(Array(q, list(vals)).GetValues("m"))),
+        ("Array(q, ndarray).GetValues", lambda: list(Array(q, numpy.array(vals)).GetValues("m"))),
+        ("Array(q, tuple of tuples).GetValues", lambda: [t for row in Array(q, pairs).GetValues("m") for t in row]),
+        ("Array(q, list of tuples).GetValues", lambda: [t for row in Array(q, list(pairs)).GetValues("m") for t in row]),
+        ("source.CreateCopy(values=tuple of tuples).GetValues", lambda: [t for row in src.CreateCopy(values=pairs).GetValues("m") for t in row]),
+        ("source.CreateCopy(values=list).GetValues", lambda: list(src.CreateCopy(values=list(vals)).GetValues("m"))),
+        ("FixedArray(4, q, tuple).GetValues", lambda: list(FixedArray(4, q, tuple(vals)).GetValues("m"))),
+        ("FixedArray(2, q, tuple of tuples).GetValues", lambda: [t for row in FixedArray(2, q, pairs).GetValues("m") for t in row]),
+        ("Scalar.CreateCopy(value).GetValue", lambda: [sc.CreateCopy(value=x).GetValue("m") for x in vals]),
+    ]
+    for name, fn in routes:
+        ctx.ev()
+        try:
+            got = [float(t) for t in fn()]
+        except Exception as e:
+            if core.tree_frame(e) is None:
+                raise
+            ctx.record("route_raises:other_database:%s:%s" % (name, type(e).__name__), {"kind": "other_database", "route": name}, "route %s on a quantity of a project database (shipped database current) raised %s: %s" % (name, type(e).__name__, str(e)[:160]))
+            continue
+        if got != [want[x] for x in vals]:
+            ctx.record("route_uses_another_database_than_the_quantitys:%s" % name, {"kind": "other_database", "route": name}, "route %s on a quantity of a project database (cm = 50 m there) while the shipped database is current gives %r, the quantity's database converts to %r" % (name, got, [want[x] for x in vals]))
+    ctx.cls("objects_of_another_database_checked")
+
+
 def variant_sweep(ctx, xs, ints):
     vdb = variant_db()
     with env.pushed(vdb):
@@ -717,6 +760,11 @@ def variant_sweep(ctx, xs, ints):
 
 
 def replay(case, ctx):
+    if case.get("kind") == "other_database":
+        db = env.new_db("posc")
+        with env.pushed(db):
+            check_objects_of_another_database(ctx)
+        return ["%s: %s" % (k, v["msg"]) for k, v in ctx.violations.items()]
     if case.get("config") == "variant":
         # the shipped table is used first in the same process, as in the sweep
         db = env.new_db("posc")
